@@ -35,6 +35,14 @@ def gen_cases(tier, seed):
             else:
                 ops.append("new " + subset())
         cases.append(";".join(ops))
+    # many distinct configured signals pending at one dispatch (the signalfd is read until it is empty)
+    for k in (4, 5, 6):
+        for _ in range(4):
+            sel = sorted(rnd.sample(NAMES, k), key=NAMES.index)
+            order = sel[:]
+            rnd.shuffle(order)
+            cases.append(";".join(["new " + ",".join(NAMES)] + ["raise " + x for x in order] + ["disp", "disp"]))
+            cases.append(";".join(["new " + ",".join(sel)] + ["raise " + x for x in order] + ["raise " + order[0], "disp", "raise " + order[-1], "disp"]))
     # every short sequence over a 2-signal universe around set_signals (the repaired window)
     small = ["raise usr1", "raise usr2", "set usr1", "set usr2", "set usr1,usr2", "set", "add", "rem", "disp", "rem usr1", "add usr2"]
     for n in (2, 3):
